@@ -70,6 +70,12 @@ func main() {
 		var c caseT
 		r.LoadReplay(&c)
 		fmt.Printf("replay: %+v\n", c)
+		if c.Scenario == "column-client-id" {
+			var cc colOwnerCase
+			r.LoadReplay(&cc)
+			phaseColumnOwner(r, &cc)
+			r.Finish()
+		}
 		if c.Scenario == "open-connections" {
 			phaseOpenConnections(r)
 			r.Finish()
@@ -103,6 +109,9 @@ func main() {
 		w.Close()
 		r.Finish()
 	}
+
+	// 0. columns with an explicit client_id (small, first)
+	phaseColumnOwner(r, nil)
 
 	dist := &distinctness{r: r, seen: map[string]keyLabel{}}
 	controls := 0
